@@ -77,7 +77,8 @@ class C03(PropCheck):
         return None
 
     def finding_replays(self):
-        return {'table-in-columns-rows-overflow': table_in_columns_overflow}
+        return {'table-in-columns-rows-overflow': table_in_columns_overflow,
+                'table-rows-after-overflowing-first-item': lambda: corpus_overflow('table_rows_after_overflow')}
 
     def judge(self, d):
         if d['section'] == 'wide-geometry':
@@ -115,10 +116,14 @@ class C03(PropCheck):
 
 def table_in_columns_overflow():
     """A table in a multi-column container near the page bottom: rows placed below the page content box."""
+    return corpus_overflow('table_in_columns_overflow')
+
+
+def corpus_overflow(name):
     import json
     from vlib.paths import CORPUS
     docs.quiet()
-    document = docs.render(json.loads((CORPUS / 'C03' / 'table_in_columns_overflow.json').read_text())['html'])
+    document = docs.render(json.loads((CORPUS / 'C03' / f'{name}.json').read_text())['html'])
     for page in document.pages:
         bottom, items = wide_trace.fit_items(page)
         if any(b > bottom * (1 + Fraction(1, 10**9)) and not first for b, first in items):
